@@ -141,6 +141,10 @@ type Exec struct {
 	selectReturn int // >0: keep only the n-th return of the function under contract (per-path postconditions)
 	numReturns   int
 	selectFn     *ssa.Function
+	behavior, behaviorFn string
+	noSafety     bool
+	specOverride map[*ssa.Function]*FuncSpec
+	initVals     map[*ssa.Package]map[*ssa.Global]Value
 }
 
 type ioGhost struct {
@@ -215,6 +219,14 @@ func (x *Exec) oblige(class, label string, goal *Term, pos token.Pos) {
 		if x.ghost > 0 {
 			return
 		}
+		if x.noSafety {
+			// termination-only behavior: a panic ends the execution, so the check may be assumed to pass
+			x.assume(goal)
+			return
+		}
+	}
+	if x.behavior != "" && fn == x.behaviorFn {
+		fn += "@" + x.behavior
 	}
 	full := Imp(x.pc(), goal)
 	name := fmt.Sprintf("%s#%s:%s", fn, class, label)
@@ -260,12 +272,17 @@ func (x *Exec) run(fr *Frame, st *State, b *ssa.BasicBlock, stop *ssa.BasicBlock
 			isBack := st.from != nil && b.Dominates(st.from) && st.from != nil && li.blocks[st.from]
 			ls := fr.loopSpec(li)
 			if ls != nil && len(ls.Invs) > 0 {
+				// a state merged at this block (joinStates) has its phis evaluated per predecessor already
 				if isBack && st.inLoop[b] != nil {
-					x.evalPhis(b, st)
+					if st.phiDone != b {
+						x.evalPhis(b, st)
+					}
 					x.checkInvariant(fr, li, ls, st, "I1")
 					return nil
 				}
-				x.evalPhis(b, st)
+				if st.phiDone != b {
+					x.evalPhis(b, st)
+				}
 				x.cutLoop(fr, li, ls, st)
 				st = x.st
 				st.phiDone = b
@@ -955,6 +972,21 @@ func (x *Exec) rangeCheck(kind string, op token.Token, a, b *Term, signed bool, 
 		return
 	}
 	w := a.S.W
+	if op == token.ADD || op == token.SUB {
+		// no signed overflow, stated on the sign bits (cheaper for the solvers than a double-width sum)
+		sa, sb := Extract(a, w-1, w-1), Extract(b, w-1, w-1)
+		var r *Term
+		var pre *Term
+		if op == token.ADD {
+			r = BvAdd(a, b)
+			pre = Eq(sa, sb) // overflow only when both operands have the same sign ...
+		} else {
+			r = BvSub(a, b)
+			pre = Not(Eq(sa, sb)) // ... resp. different signs for a subtraction
+		}
+		x.oblige("R", "int-"+kind, Imp(pre, Eq(Extract(r, w-1, w-1), sa)), pos)
+		return
+	}
 	ea, eb := Sext(a, w+w), Sext(b, w+w)
 	var wide *Term
 	switch op {
@@ -1547,6 +1579,9 @@ func (x *Exec) callFunction(fn *ssa.Function, args []Value, bind []Value, ghost 
 		unsup("call depth exceeded in %s", fn)
 	}
 	fr := &Frame{fn: fn, info: x.P.info(fn), spec: x.P.specs[fnName(fn)], ghost: ghost, args: args}
+	if ov, ok := x.specOverride[fn]; ok {
+		fr.spec = ov
+	}
 	caller := x.st
 	if fr.spec != nil && len(fr.spec.Loops) > 0 {
 		if fn.Pkg != nil {
@@ -1675,7 +1710,7 @@ func (x *Exec) callStatic(fr *Frame, fn *ssa.Function, args []Value, bind []Valu
 		return x.smtCall(fn, k, args)
 	}
 	if !ghost {
-		if sp := x.P.specs[name]; sp != nil && sp.HasContract() && !sp.Inline && x.P.harnessOf[name] != nil {
+		if sp := x.P.specs[name]; sp != nil && sp.HasContract() && !sp.Inline && x.P.harnessOf[sp.Key()] != nil {
 			return x.useContract(fr, fn, sp, args, pos)
 		}
 	}
